@@ -5862,7 +5862,8 @@ void UniCompiler::emit_mv(UniOpMV op, const Mem& dst_, const Vec& src_, Alignmen
         if (op == UniOpMV::kStoreExtractU16) {
           Gp tmp = new_gp32("@pextrw_tmp");
           cc->pextrw(tmp, src, idx);
-          cc->mov(dst, tmp);
+          dst.set_size(2);
+          cc->mov(dst, tmp.r16());
           return;
         }
 
